@@ -106,13 +106,18 @@ COMPONENT_ARG = {"page": "rtf_page", "title": "rtf_title", "footnote": "rtf_foot
                  "subline": "rtf_subline", "page_header": "rtf_page_header", "page_footer": "rtf_page_footer"}
 
 
+def _spec(op):
+    """The document a construct operation builds: a pool archetype, or a generated recipe carried by the operation."""
+    return copy.deepcopy(op["recipe"] if "recipe" in op else ARCH[op["arch"]])
+
+
 def effective_recipe(history, upto):
     """Value of every constructed document as a recipe (shared components replaced by the donor's spec)."""
     recs = []
     for op in history[:upto]:
         if op["op"] != "construct":
             continue
-        rec = copy.deepcopy(ARCH[op["arch"]])
+        rec = _spec(op)
         sh = op.get("share")
         if sh and recs:
             donor = recs[sh["from"] % len(recs)]
@@ -189,7 +194,9 @@ def check(case) -> Result:
         for op in hist:
             if op["op"] == "construct":
                 # the document's value as a recipe: its archetype, with shared components taking the donor's CURRENT value
-                rec = copy.deepcopy(ARCH[op["arch"]])
+                rec = _spec(op)
+                if "recipe" in op:
+                    flags.add("generated_documents")
                 sh = op.get("share")
                 donor, what = None, []
                 if sh and pool:
@@ -276,8 +283,37 @@ def _construct(arch, share=None):
     return op
 
 
+GEN_CFG = None
+
+
+@st.composite
+def _generated_pair(draw):
+    """Two (three) documents from the universal document strategy instead of the archetype pool: A is constructed and
+    encoded (it may be refused), B is constructed - optionally around A's page / title / subline / footnote / source /
+    page header / page footer OBJECTS - and every document is encoded at the end."""
+    from dataclasses import replace as _replace
+
+    from .. import gen
+    global GEN_CFG
+    if GEN_CFG is None:
+        GEN_CFG = gen.Cfg(max_cols=4, max_rows=8, nrow_range=(2, 10), allow_group_by=True, noncontig=0.2, long_text=0.1, multi_grouping=True)
+    k = draw(st.sampled_from([2, 2, 3]))
+    hist = []
+    for i in range(k):
+        op = {"op": "construct", "arch": -1, "recipe": draw(gen.universal(GEN_CFG))}
+        if i and draw(st.booleans()):
+            op["share"] = {"from": draw(st.integers(0, i - 1)),
+                           "what": draw(st.lists(st.sampled_from(sorted(COMPONENT_ARG)), min_size=1, max_size=4, unique=True))}
+        hist.append(op)
+        if draw(st.integers(0, 9)) < 7:
+            hist.append({"op": draw(st.sampled_from(["encode", "encode_twice"])), "doc": i})
+    return {"history": hist}
+
+
 @st.composite
 def _history(draw):
+    if draw(st.integers(0, 9)) < 2:
+        return draw(_generated_pair())
     n = draw(st.integers(1, 4))
     hist = [_construct(draw(st.integers(0, len(ARCH) - 1)))]
     for _ in range(n):
